@@ -497,12 +497,12 @@ def _tla_to_json(v):
 def c10(c):
     thorough = c.tier == "thorough"
     c.cov["rule"] = ("MC_Falcon (algebra): the coset / basis identities on the toy ring for every z. Trace_Moments: one key per variant (two in "
-                     "thorough), N signatures of distinct messages (quick 196 / 98, thorough 1512 / 756); per signature TLC recomputes c, s2, "
+                     "thorough), N signatures of distinct messages (quick 154+4 / 84+4, thorough 1512 / 756); per signature TLC recomputes c, s2, "
                      "s1 from the bytes, demands the verification bound and computes exactly ||s||^2 and the projections on all 2n rotations "
                      "of (g,-f) and (G,-F); a second TLC run sums the shards' partial sums and applies the windows: E||s||^2 = 2 n sigma^2, "
                      "E sum_k <s,x^k b>^2 = n sigma^2 ||b||^2, mean zero. distinct_nontrivial = number of moment predicates evaluated")
     _mc_falcon(c, ["algebra"], [])
-    n512, n1024, keys = (1512, 756, 2) if thorough else (196, 98, 1)
+    n512, n1024, keys = (1512, 756, 2) if thorough else (154, 84, 1)
     drive("c10", ["--tier", c.tier, "--seed", c.seed, "--out", c.work, "--shards", 14, "--n512", n512, "--n1024", n1024, "--keys", keys], timeout=7200)
     files = traces_in(c.work, "mom")
     to = validate_traces("Trace_Moments", files, parallel=PAR, timeout=14400, sparse=True, xmx="4g")
